@@ -418,7 +418,8 @@ void World::on_close(KFd &k) {
 			else if (mode == "exact" && !cl->no_expect && cl->faulty) {
 				// the daemon gives a faulty peer up when it cannot write to it: an observation, fed to the model as an input (DESIGN.md 5.2)
 				flush_pending();
-				if (!cl->closing) { probe("faulty_peer_dropped_by_daemon"); model.on_peer_gone(cl->idx, false); cl->closing = true; }
+				// an add of this peer that nobody was told about did not take effect: settle that before its elements are taken away
+				if (!cl->closing) { probe("faulty_peer_dropped_by_daemon"); resolve_silent_decisions(); model.on_peer_gone(cl->idx, false); cl->closing = true; }
 				cl->expq.clear();
 			}
 			else if (mode == "exact" && !cl->no_expect) { if (!match_close(*cl)) {
